@@ -219,6 +219,11 @@ class CFG:
                 for w in ast.walk(sub):
                     if isinstance(w, ast.NamedExpr) and isinstance(w.target, ast.Name):
                         self.defs_at[n].append(Def(w.target.id, n, "walrus", w.value, None, a))
+        # a pseudo-variable `self.x` has a value before the method runs (whatever the object holds): without an entry
+        # definition a store on one branch only would look like the sole definition at the join
+        pseudo = sorted({d.name for ds in self.defs_at.values() for d in ds if "." in d.name})
+        for nm in pseudo:
+            self.defs_at[self.entry].append(Def(nm, self.entry, "attr-entry", None, None, None))
         # iterate
         self.rd_in: dict[Node, dict[str, frozenset]] = {n: {} for n in self.nodes}
         self.rd_out: dict[Node, dict[str, frozenset]] = {n: {} for n in self.nodes}
